@@ -71,20 +71,30 @@ theorem steps_cons_inert (e : Char) (he : Inert e) (m : Nat) : ∀ (s t : Str), 
     obtain ⟨x, hx, hs⟩ := h
     exact ⟨e :: x, by rw [hstep, hx]; rfl, ih x t hs⟩
 
-/-- a separator: blanks and one parenthesis -/
-def Sep (q : Str) : Prop := ∃ bl e, q = bl ++ [e] ∧ (∀ c ∈ bl, c = ' ') ∧ Mark e
+/-- a separator: blanks and one parenthesis, or at least one blank and `+` -/
+def Sep (q : Str) : Prop :=
+  ∃ bl e, q = bl ++ [e] ∧ (∀ c ∈ bl, c = ' ') ∧ (Mark e ∨ (e = '+' ∧ bl ≠ []))
+
+theorem sep_e_facts (e : Char) (he : Mark e ∨ e = '+') : Inert e ∧ isWs e = false := by
+  rcases he with he | rfl
+  · exact ⟨(mark_facts e he).1, (mark_facts e he).2.2.2.1⟩
+  · decide
 
 theorem sep_inert (q : Str) (hq : Sep q) : ∀ c ∈ q, Inert c := by
   obtain ⟨bl, e, rfl, hbl, he⟩ := hq
   intro c hc
   rcases List.mem_append.mp hc with h | h
   · rw [hbl c h]; decide
-  · rw [List.mem_singleton.mp h]; exact (mark_facts e he).1
+  · rw [List.mem_singleton.mp h]
+    exact (sep_e_facts e (he.imp id (·.1))).1
 
 theorem sep_head (q s : Str) (hq : Sep q) : ∃ x X, q ++ s = x :: X ∧ EndC x := by
   obtain ⟨bl, e, rfl, hbl, he⟩ := hq
   cases bl with
-  | nil => exact ⟨e, s, rfl, he.endc⟩
+  | nil =>
+    rcases he with he | ⟨_, hne⟩
+    · exact ⟨e, s, rfl, he.endc⟩
+    · exact absurd rfl hne
   | cons b t => exact ⟨b, t ++ [e] ++ s, by simp, by rw [hbl b (by simp)]; exact Or.inr (Or.inr rfl)⟩
 
 theorem dw_sep (q s : Str) (hq : Sep q) (rest : Str) :
@@ -100,9 +110,9 @@ theorem dw_sep (q s : Str) (hq : Sep q) (rest : Str) :
 theorem startsP_sep (q s : Str) (hq : Sep q) : startsP ((q ++ s).dropWhile isWs) = false := by
   obtain ⟨bl, e, rfl, hbl, he⟩ := hq
   have hws : ∀ c ∈ bl, isWs c = true := by intro c hc; rw [hbl c hc]; decide
-  have h := (mark_facts e he)
+  have h := sep_e_facts e (he.imp id (·.1))
   rw [List.append_assoc, List.dropWhile_append_of_pos hws]
-  simp only [List.singleton_append, List.dropWhile_cons, h.2.2.2.1, Bool.false_eq_true, if_false]
+  simp only [List.singleton_append, List.dropWhile_cons, h.2, Bool.false_eq_true, if_false]
   exact startsP_inert e s h.1
 
 theorem pass1At_sep (w q s : Str) (hq : Sep q) :
@@ -460,7 +470,11 @@ theorem P2_chain_sep (q s ts : Str) (hq : Sep q) (h : P2 s ts) (r : Rest) (it : 
   cases bl with
   | nil =>
     simp only [List.nil_append, List.singleton_append] at hqs ⊢
-    exact P2_item_mark it' s (e :: ts) e he hok' hqs
+    have he' : Mark e := by
+      rcases he with he | ⟨_, hne⟩
+      · exact he
+      · exact absurd rfl hne
+    exact P2_item_mark it' s (e :: ts) e he' hok' hqs
   | cons b t =>
     have hb : b = ' ' := hbl b (by simp)
     subst hb
@@ -479,8 +493,8 @@ theorem preprocess_chain_group (ita : Item) (ra : Rest) (k : Nat) (itb : Item) (
         ')' :: (if dg.isEmpty then [] else symMul ++ dg))) := by
   have hblk : ∀ c ∈ List.replicate k ' ', c = ' ' := fun c hc => List.eq_of_mem_replicate hc
   have hblw : ∀ c ∈ List.replicate k ' ', isWs c = true := by intro c hc; rw [hblk c hc]; decide
-  have hq1 : Sep (List.replicate k ' ' ++ ['(']) := ⟨_, '(', rfl, hblk, Or.inl rfl⟩
-  have hq2 : Sep [')'] := ⟨[], ')', rfl, by simp, Or.inr rfl⟩
+  have hq1 : Sep (List.replicate k ' ' ++ ['(']) := ⟨_, '(', rfl, hblk, Or.inl (Or.inl rfl)⟩
+  have hq2 : Sep [')'] := ⟨[], ')', rfl, by simp, Or.inl (Or.inr rfl)⟩
   have hdi : ∀ c ∈ dg, Inert c := fun c hc => inert_of_isDig c (hd c hc)
   have hdp : ∀ c ∈ dg, c ≠ '(' ∧ c ≠ ')' := by
     intro c hc
